@@ -127,6 +127,9 @@ func (in *instr) funcLits(n ast.Node) {
 
 func callsPkg(n ast.Node, pkgs ...string) bool {
 	found := false
+	if n == nil {
+		return false
+	}
 	ast.Inspect(n, func(m ast.Node) bool {
 		if _, ok := m.(*ast.FuncLit); ok {
 			return false
